@@ -68,3 +68,118 @@ Proof. vm_compute. split; reflexivity. Qed.
 (* the exotic separators do split the text but not the file: finding K9, witness *)
 Example k9_refuted : let ff := String (ascii_of_nat 12) "" in rows_of_text ("a" ++ ff ++ "b")%string <> rows_of_file ("a" ++ ff ++ "b")%string.
 Proof. vm_compute. discriminate. Qed.
+
+(* ------------------------------------------------------------------ C02: the line reader takes cell text literally *)
+From KV Require Import StringProofs ReaderGen.
+
+(* the reader configuration this model stands for, as read from Importer.import_string / import_file by the translator *)
+Definition modelled_reader_args : list (string * string) := [("delimiter", "'\t'"); ("quoting", "csv.QUOTE_NONE")]%string.
+Definition pair_mem (kv : string * string) (l : list (string * string)) : bool :=
+  existsb (fun x => String.eqb (fst x) (fst kv) && String.eqb (snd x) (snd kv)) l.
+Definition same_args (a b : list (string * string)) : bool :=
+  forallb (fun kv => pair_mem kv b) a && forallb (fun kv => pair_mem kv a) b.
+
+Lemma readers_as_modelled :
+  text_lines_expr = "text.splitlines()"%string /\ same_args text_reader_args modelled_reader_args = true /\
+  same_args file_reader_args modelled_reader_args = true /\ assoc_str "newline" file_open_args = Some "''"%string.
+Proof. repeat split; reflexivity. Qed.
+
+Definition tab : ascii := byte 9.
+Definition lf : ascii := byte 10.
+Definition cr : ascii := byte 13.
+
+Lemma is_byte_eqb n c : n < 256 -> is_byte n c = Ascii.eqb c (ascii_of_nat n).
+Proof.
+  intros Hn. unfold is_byte. destruct (Ascii.eqb_spec c (ascii_of_nat n)) as [->|Hne].
+  - rewrite nat_ascii_embedding by exact Hn. apply Nat.eqb_refl.
+  - apply Nat.eqb_neq. intros H. apply Hne. rewrite <- H. now rewrite ascii_nat_embedding.
+Qed.
+
+Lemma filelines_aux_prefix : forall a rest cur, avoids lf a = true -> avoids cr a = true ->
+  filelines_aux (chars_of_string a ++ rest) cur = filelines_aux rest (rev (chars_of_string a) ++ cur).
+Proof.
+  induction a as [|c a IH]; intros rest cur Hl Hc; [reflexivity|].
+  cbn [avoids] in Hl, Hc. apply andb_true_iff in Hl. destruct Hl as [Hl1 Hl2]. apply andb_true_iff in Hc. destruct Hc as [Hc1 Hc2].
+  apply negb_true_iff in Hl1. apply negb_true_iff in Hc1.
+  cbn [chars_of_string app filelines_aux rev].
+  rewrite (is_byte_eqb 13 c) by lia. rewrite (is_byte_eqb 10 c) by lia. fold cr lf. unfold cr, lf, byte in *. rewrite Hc1, Hl1.
+  rewrite (IH rest (c :: cur) Hl2 Hc2). now rewrite <- app_assoc.
+Qed.
+
+Definition line_ok (l : string) : bool := avoids lf l && avoids cr l.
+
+(* lines each followed by the end-of-line sequence [eol] *)
+Fixpoint unlines (eol : string) (lines : list string) : string :=
+  match lines with [] => ""%string | l :: r => (l ++ eol ++ unlines eol r)%string end.
+
+Lemma flush_rev l : string_of_chars (rev (rev (chars_of_string l) ++ [])) = l.
+Proof. rewrite app_nil_r, rev_involutive. apply string_of_chars_of_string. Qed.
+
+Theorem filelines_unlines_lf : forall lines, forallb line_ok lines = true -> filelines (unlines (String lf "") lines) = lines.
+Proof.
+  unfold filelines. induction lines as [|l r IH]; intros H; [reflexivity|].
+  cbn [forallb] in H. apply andb_true_iff in H. destruct H as [Hl Hr]. apply andb_true_iff in Hl. destruct Hl as [H1 H2].
+  cbn [unlines]. rewrite !chars_of_string_app. rewrite (filelines_aux_prefix l _ [] H1 H2).
+  cbn [chars_of_string app filelines_aux]. change (is_byte 13 lf) with false. change (is_byte 10 lf) with true. cbv iota.
+  rewrite flush_rev. f_equal. apply IH, Hr.
+Qed.
+
+Theorem filelines_unlines_crlf : forall lines, forallb line_ok lines = true -> filelines (unlines (String cr (String lf "")) lines) = lines.
+Proof.
+  unfold filelines. induction lines as [|l r IH]; intros H; [reflexivity|].
+  cbn [forallb] in H. apply andb_true_iff in H. destruct H as [Hl Hr]. apply andb_true_iff in Hl. destruct Hl as [H1 H2].
+  cbn [unlines]. rewrite !chars_of_string_app. rewrite (filelines_aux_prefix l _ [] H1 H2).
+  cbn [chars_of_string app filelines_aux]. change (is_byte 13 cr) with true. change (is_byte 10 lf) with true. cbv iota.
+  rewrite flush_rev. f_equal. apply IH, Hr.
+Qed.
+
+(* a row: cells free of tab / LF / CR whose joined text is not empty (csv yields [] for an empty line) *)
+Definition cell_ok (c : string) : bool := avoids tab c && avoids lf c && avoids cr c.
+Definition row_ok (row : list string) : bool := forallb cell_ok row && negb (String.eqb (join (String tab "") row) "").
+
+Lemma avoids_join_cells c0 sep : forall l, avoids c0 sep = true -> forallb (avoids c0) l = true -> avoids c0 (join sep l) = true.
+Proof.
+  induction l as [|x l IH]; intros Hs H; [reflexivity|]. cbn [forallb] in H. apply andb_true_iff in H. destruct H as [Hx Hl].
+  destruct l as [|y l']; [exact Hx|].
+  change (join sep (x :: y :: l')) with (x ++ sep ++ join sep (y :: l'))%string. rewrite !avoids_app, Hx, Hs. cbn [andb]. apply IH; assumption.
+Qed.
+
+Lemma forallb_imp {A} (p q : A -> bool) l : (forall x, p x = true -> q x = true) -> forallb p l = true -> forallb q l = true.
+Proof. intros H. rewrite !forallb_forall. intros G x Hx. apply H, G, Hx. Qed.
+
+Lemma row_of_line_join row : row_ok row = true -> row_of_line (join (String tab "") row) = row /\ line_ok (join (String tab "") row) = true.
+Proof.
+  unfold row_ok. intros H. apply andb_true_iff in H. destruct H as [Hc Hne]. apply negb_true_iff in Hne.
+  assert (Hrow : row <> []) by (intros ->; discriminate).
+  split.
+  - unfold row_of_line. destruct (join (String tab "") row) eqn:E; [discriminate|]. rewrite <- E.
+    apply (split_join_char tab row Hrow). eapply forallb_imp; [|exact Hc].
+    intros x Hx. unfold cell_ok in Hx. apply andb_true_iff in Hx. destruct Hx as [Hx _]. apply andb_true_iff in Hx. tauto.
+  - unfold line_ok. apply andb_true_iff. split; apply avoids_join_cells; try reflexivity.
+    + eapply forallb_imp; [|exact Hc]. intros x Hx. unfold cell_ok in Hx. apply andb_true_iff in Hx. destruct Hx as [Hx _]. apply andb_true_iff in Hx. tauto.
+    + eapply forallb_imp; [|exact Hc]. intros x Hx. unfold cell_ok in Hx. apply andb_true_iff in Hx. tauto.
+Qed.
+
+(* the whole grid comes back cell for cell, whatever the cells hold besides tab / LF / CR: quotes, commas, spaces, any byte *)
+Theorem file_grid_literal eol grid : eol = String lf "" \/ eol = String cr (String lf "") -> forallb row_ok grid = true ->
+  rows_of_file (unlines eol (map (join (String tab "")) grid)) = grid.
+Proof.
+  intros He H. unfold rows_of_file.
+  assert (Hl : forallb line_ok (map (join (String tab "")) grid) = true).
+  { rewrite forallb_forall. intros x Hx. apply in_map_iff in Hx. destruct Hx as [row [<- Hin]].
+    rewrite forallb_forall in H. apply (row_of_line_join row (H row Hin)). }
+  destruct He as [-> | ->]; [rewrite (filelines_unlines_lf _ Hl) | rewrite (filelines_unlines_crlf _ Hl)];
+    rewrite map_map; rewrite <- (map_id grid) at 2; apply map_ext_in; intros row Hin;
+    rewrite forallb_forall in H; apply (row_of_line_join row (H row Hin)).
+Qed.
+
+Corollary text_grid_literal eol grid : eol = String lf "" \/ eol = String cr (String lf "") -> forallb row_ok grid = true ->
+  plain (chars_of_string (unlines eol (map (join (String tab "")) grid))) = true ->
+  rows_of_text (unlines eol (map (join (String tab "")) grid)) = grid.
+Proof. intros He H Hp. rewrite <- (file_equals_text _ Hp). apply file_grid_literal; assumption. Qed.
+
+Example literal_cells_example :
+  let q := String (ascii_of_nat 34) "" in
+  rows_of_file (unlines (String lf "") (map (join (String tab "")) [["**kern"; "**text"]; ["4c"; q ++ "Ach,"]; ["4d"; "nein" ++ q]; ["*-"; "*-"]]))%string
+  = [["**kern"; "**text"]; ["4c"; q ++ "Ach,"]; ["4d"; "nein" ++ q]; ["*-"; "*-"]]%string.
+Proof. vm_compute. reflexivity. Qed.
